@@ -43,8 +43,8 @@ CHECKS = {
 }
 
 CHECKS.update({
- "C04": ("generated-value round-trip search: corpus tables + proptest recipes for 31 table kinds (strong check) and parse-first mutated tables (idempotence) vs dump->read->equality + re-dump byte equality",
-         "Exploration: every writable top-level table of every corpus font, ~160 k (quick) generated values over 31 table kinds / versions / formats with null and non-null offsets, and ~180 k field-sweep / havoc mutated tables parsed first; oracle is structural equality after dump_table + read (implied-length arrays on the written prefix) and byte equality of the re-dump. Sampling, no proof.",
+ "C04": ("generated-value round-trip search: corpus tables + proptest recipes for 32 table / record kinds incl. the glyf SimpleGlyph record (strong check) and parse-first mutated tables (idempotence) vs dump->read->equality + re-dump byte equality",
+         "Exploration: every writable top-level table of every corpus font, ~160 k (quick) generated values over 32 table and record kinds / versions / formats with null and non-null offsets, and ~180 k field-sweep / havoc mutated tables parsed first; oracle is structural equality after dump_table + read (implied-length arrays on the written prefix) and byte equality of the re-dump. Sampling, no proof.",
          "Trusts the Debug-tree comparator and its documented allowances (implied-length arrays; repacked GPOS/GSUB only counted); values that only corrupt bytes produce (inconsistent counts) are checked for idempotence only.",
          "DESIGN.md §4 C04"),
  "C05": ("exhaustive small DAG shapes over a size alphabet straddling 64 KiB + proptest random DAGs / big Gpos tables vs an independent byte walker (public FontWrite route and the mock-graph hook)",
@@ -74,11 +74,11 @@ CHECKS.update({
          "Exploration, partly exhaustive: all 1.85 M histories of length <= 4 over a 31-op alphabet spanning two page edges (thorough; seeded 1/20 stride in quick), random histories up to 200 steps over 8 element domains incl. a discontinuous one with the whole query surface compared after every step, Eq/Ord/Hash on independently built pairs, RangeSet invariants, codec round trips for all branch factors and millions of byte strings against the harness's transcription of the decoding algorithm.",
          "Trusts the harness's range-list model and its u128 transcription of the sparse-bit-set decoding algorithm; heights above the documented maximum are checked for no-panic only.",
          "DESIGN.md §4 C14"),
- "C16": ("proptest-generated glyph sets and pair / mark-base rule sets (up to several x 64 KiB) vs a reference lookup walker over the compiled bytes",
+ "C16": ("proptest-generated glyph sets and pair / mark-base rule sets (up to several x 64 KiB; class-pair rules with overlapping classes in the stage pairpos-overlap) vs a reference lookup walker over the compiled bytes",
          "Exploration: coverage/class builders checked for every glyph 0..=65535; generated Gpos tables with PairPos (glyph and class rules, 1..8 value fields, devices/variation indices) and MarkToBase lookups, sized from tiny to several times the 16-bit offset limit, compiled through the public builders and evaluated by a harness walker (unwrapping extensions, formats 1/2, mark/base anchors) against the rule model incl. pairs without rules.",
          "Trusts the harness walker and rule model (first-match semantics as documented by the builders); large cases are query-sampled (all glyph-pair rules exactly, class cells against sampled second glyphs).",
          "DESIGN.md §4 C16"),
- "C17": ("proptest-generated subset requests over the corpus vs original-vs-subset observation equality through skrifa (hook H3 for the glyph renumbering); fixpoint re-subsetting",
+ "C17": ("proptest-generated subset requests over the corpus (plus corpus fonts with HVAR re-encoded over 3-4 variation data subtables) vs original-vs-subset observation equality through skrifa (hook H3 for the glyph renumbering); fixpoint re-subsetting",
          "Exploration: ~15 k (quick) / ~125 k (thorough) generated requests (character and glyph-id sets of all shapes, 16 flag combinations, sizes, locations) over 49 corpus fonts; the subset must open, keep requested glyphs + .notdef + component closure, map requested characters to renumbered glyphs and nothing else, and give bit-identical unhinted outlines, advances and side bearings for kept glyphs; requesting everything and re-subsetting a subset change nothing.",
          "Hook H3 exposes klippa's glyph map; the component closure is computed by a glyf parser in the harness; up to 160 kept glyphs per case are compared.",
          "DESIGN.md §4 C17"),
